@@ -59,9 +59,9 @@ CHECK = {
    'live.epochs': 150,
    'live.epochs_drained': 150,
    'live.listeners': 150,
-   'live.continuous_lines': 5000,
+   'live.continuous_lines': 4000,
    'live.longpoll_responses': 600,
-   'live.messages_scanned': 50000,
+   'live.messages_scanned': 40000,
    'live.access_losses': 50,
    'live.revisions_written_to_a_channel_a_listening_user_has_lost': 250,
    'live.revisions_written_while_a_listening_user_may_not_see_them': 1000,
